@@ -432,7 +432,17 @@ func checkCase(c sqlCase) (o pbt.Outcome) {
 		return
 	}
 	baseText := c.Base.text()
-	ns, err := newNS(baseText)
+	var ns *server.Namespace
+	var err error
+	if p := pbt.Catch(func() { ns, err = newNS(baseText) }); p != "" {
+		detail := fmt.Sprintf("NewNamespace with black_sql %q panicked: %s", baseText, p)
+		if id := classifyPanic(c.Base, p); id != "" {
+			o.Known, o.KnownWhat = id, detail
+			return
+		}
+		o.Violation = detail
+		return
+	}
 	if err != nil {
 		o.Violation = fmt.Sprintf("NewNamespace rejected the configuration with black_sql %q: %v", baseText, err)
 		return
@@ -460,7 +470,12 @@ func checkCase(c sqlCase) (o pbt.Outcome) {
 		o.NonTrivial = true
 		r, p := rejected(variant)
 		if p != "" {
-			o.Violation = fmt.Sprintf("IsSQLAllowed(%q) panicked: %s", variant, p)
+			detail := fmt.Sprintf("IsSQLAllowed(%q) panicked: %s", variant, p)
+			if id := classifyPanic(target, p); id != "" {
+				o.Known, o.KnownWhat = id, detail
+				return
+			}
+			o.Violation = detail
 			return
 		}
 		if !r {
@@ -470,6 +485,43 @@ func checkCase(c sqlCase) (o pbt.Outcome) {
 		if id := classifyMutant(c, target, ns); id != "" {
 			o.Known, o.KnownWhat = id, detail
 			return
+		}
+		// the bare mutant is allowed and only its equivalence edits make it collide with the base
+		// (an attached comment that drops the distinguishing word, ...): reduce to the responsible
+		// edits and accept the case as known only if every one of them matches an open finding
+		if bare, _ := rejected(apply(target, nil, nil)); !bare && len(c.Edits) > 0 {
+			keep := make([]bool, len(c.Edits))
+			for i := range keep {
+				keep[i] = true
+			}
+			for i := range keep {
+				keep[i] = false
+				if rr, _ := rejected(apply(target, c.Edits, keep)); !rr {
+					keep[i] = true
+				}
+			}
+			var culprits []int
+			for i := range keep {
+				if keep[i] {
+					culprits = append(culprits, i)
+				}
+			}
+			known, all := "", len(culprits) > 0
+			var descs []string
+			for _, i := range culprits {
+				id := classifyEdit(target, c.Edits, culprits, i)
+				if id == "" {
+					all = false
+				} else if known == "" {
+					known = id
+				}
+				descs = append(descs, describeEdit(target, c.Edits[i]))
+			}
+			detail += "; the mutant without edits is allowed; responsible edits: " + strings.Join(descs, "; ")
+			if all {
+				o.Known, o.KnownWhat = known, detail
+				return
+			}
 		}
 		if survey {
 			o.Labels = append(o.Labels, "collision: "+c.Mut)
@@ -482,7 +534,12 @@ func checkCase(c sqlCase) (o pbt.Outcome) {
 	o.NonTrivial = len(c.Edits) >= 2
 	r, p := rejected(variant)
 	if p != "" {
-		o.Violation = fmt.Sprintf("IsSQLAllowed(%q) panicked: %s", variant, p)
+		detail := fmt.Sprintf("IsSQLAllowed(%q) panicked: %s", variant, p)
+		if id := classifyPanic(target, p); id != "" {
+			o.Known, o.KnownWhat = id, detail
+			return
+		}
+		o.Violation = detail
 		return
 	}
 	if r {
